@@ -39,11 +39,17 @@ def __getattr__(name):
 
     @func.register(da.Array)
     def _(x, *args, **kwargs):
-        if name.endswith("n") and len(args) < 2 and kwargs.get("axes") is None:
-            # `s` without `axes` means the last len(s) axes (as in scipy.fft)
-            s = args[0] if args else kwargs.get("s")
-            if s is not None:
-                kwargs["axes"] = tuple(range(x.ndim - len(s), x.ndim))
+        if name.endswith("n"):
+            # `s` without `axes` means the last len(s) axes (as in scipy.fft),
+            # however the two are passed
+            s = args[0] if len(args) > 0 else kwargs.get("s")
+            axes = args[1] if len(args) > 1 else kwargs.get("axes")
+            if s is not None and axes is None:
+                axes = tuple(range(x.ndim - len(s), x.ndim))
+                if len(args) > 1:
+                    args = (args[0], axes) + tuple(args[2:])
+                else:
+                    kwargs["axes"] = axes
         wrapped_func = da.fft.fft_wrap(_fft_func)
         return wrapped_func(x, *args, **kwargs)
 
